@@ -260,5 +260,4 @@ def _p_lazy_plain():
 
 
 register('C10', Probe('one token per line (newline between keyword and parenthesis)', _p_lazy_plain, variant='lines', masks=dict(variants=['lines'])))
-register('C10', Probe('comment on its own line between two instances', _p_lazy_plain, variant='cmt_between',
-                      masks=dict(variants=['cmt_between', 'cmt_structural', 'cmt_before_top'])))
+register('C10', Probe('comment on its own line between two instances', _p_lazy_plain, variant='cmt_between'))
